@@ -77,6 +77,7 @@ var types = []typ{
 }
 
 type gen struct {
+	enumQuery bool
 	rng      *rand.Rand
 	id       string
 	mainPath string
@@ -142,10 +143,7 @@ func (g *gen) handler(form string) *Handler {
 			hasBind = true
 			t := g.pickType(h.Inner, false)
 			it := Item{K: "bind", Addr: g.chance(0.75), tmpl: t.tmpl}
-			it.Ty = g.q(t.tmpl)
-			if !it.Addr {
-				it.Ty = "*" + it.Ty
-			}
+			it.Ty = g.q(t.tmpl) // by address or through a pointer variable: the body is the value
 			st = Stmt{Kind: pick(g.rng, []string{"assign", "guarded"}), Items: []Item{it}}
 		case k == 1 && !hasFile:
 			hasFile = true
@@ -158,6 +156,8 @@ func (g *gen) handler(form string) *Handler {
 			tm := "{M}.IdDossier"
 			if h.Inner {
 				tm = "{I}.InnerID"
+			} else if g.enumQuery && g.chance(0.5) {
+				tm = "{M}.Color"
 			}
 			st = Stmt{Kind: "assign", Items: []Item{{K: "queryInt", Name: g.name(used), Ty: g.q(tm), tmpl: tm}}}
 		case k == 4 && !hasJSON:
@@ -336,8 +336,11 @@ var verbs = []string{"GET", "POST", "PUT", "DELETE"}
 type pathPart struct{ expr, val string }
 
 // New synthesises one route file (case id), with its table.
-func New(rng *rand.Rand, id string) *Table {
-	g := &gen{rng: rng, id: id, mainPath: synth.ModulePath + "/" + id}
+func New(rng *rand.Rand, id string) *Table { return NewWith(rng, id, false) }
+
+// NewWith: enumQuery lets the generic query helper be instantiated with an enum type.
+func NewWith(rng *rand.Rand, id string, enumQuery bool) *Table {
+	g := &gen{rng: rng, id: id, mainPath: synth.ModulePath + "/" + id, enumQuery: enumQuery}
 	t := &Table{MainPath: g.mainPath}
 	parts := []pathPart{
 		{`"/api"`, "/api"}, {`"/x"`, "/x"}, {`"/with_param/:param"`, "/with_param/:param"}, {`"/"`, "/"}, {`"seg"`, "seg"},
@@ -405,6 +408,14 @@ func New(rng *rand.Rand, id string) *Table {
 const typedBase string = "/typed/"
 
 type IdDossier int64
+
+type Color int64
+
+const (
+	Red Color = iota
+	Green
+	Blue
+)
 
 type In0 struct {
 	A int
